@@ -17,7 +17,13 @@ func mutateWire(r *SplitMix, a, b []byte) ([]byte, string) {
 		}
 		return m, "bitflip"
 	}
-	switch r.Intn(17) {
+	switch r.Intn(18) {
+	case 17: // one byte-string field of one packet lengthened
+		if g, t := growFields(r, a); len(g) > 0 {
+			k := r.Intn(len(g))
+			return g[k], t[k]
+		}
+		fallthrough
 	case 16: // same header fields, different header bytes
 		if m, ok := respellHeader(r, a); ok {
 			return m, "hdr-respell"
@@ -363,6 +369,37 @@ func packetSubsequences(a []byte) (out [][]byte, tags []string) {
 		}
 		out = append(out, b)
 		tags = append(tags, tag)
+	}
+	return
+}
+
+// growFields: for every payload packet and every byte-string field directly inside it (signature, chunk,
+// ciphertext, an authenticator), the message with that field lengthened by a few bytes (its MessagePack
+// length re-encoded, everything else untouched) — what an outsider can do to a packet without any key
+func growFields(r *SplitMix, a []byte) (out [][]byte, tags []string) {
+	objs, ok := splitObjects(a)
+	if !ok || len(objs) < 2 {
+		return nil, nil
+	}
+	for pi := 1; pi < len(objs); pi++ {
+		nd, _, err := mpParse(objs[pi])
+		if err != nil || nd.Kind != mpArr {
+			continue
+		}
+		for fi, f := range nd.Arr {
+			if f.Kind != mpBin && f.Kind != mpStr {
+				continue
+			}
+			nd2, _, _ := mpParse(objs[pi])
+			g := nd2.Arr[fi]
+			g.Bytes = append(cloneBytes(g.Bytes), r.Bytes(1+r.Intn(48))...)
+			g.Raw = nil
+			nd2.Raw = nil
+			o := append([][]byte{}, objs...)
+			o[pi] = mpEnc(nd2)
+			out = append(out, joinObjects(o))
+			tags = append(tags, "grow-field-"+string(rune('0'+pi%10))+"-"+string(rune('0'+fi%10)))
+		}
 	}
 	return
 }
